@@ -87,11 +87,16 @@ class GenCheck(Check):
         except Exception as e:
             self.problems.append("cannot build tl2gen from the working tree: %s" % str(e)[-600:])
 
-    def run_schema(self, key, schemas, optname, props, regex, params=None, only=None, skip=None, hgen_extra=(), libs=None, ladder=(), **kw):
+    def run_schema(self, key, schemas, optname, props, regex, params=None, only=None, skip=None, hgen_extra=(), libs=None, ladder=(), extra_gen=(), rawkey=False, **kw):
         if not self.tl2gen:
             return None
         opts = OPTSETS[optname]
-        k = "%s_%s" % (key, optname)
+        k = key if rawkey else "%s_%s" % (key, optname)
+        for (ek, eschemas, eopt) in extra_gen:  # companion generations (e.g. the OLD schema of a compatibility pair), importable by the harness
+            epkg, etxt = generate(self.tl2gen, self.mod, ek, eschemas, OPTSETS[eopt])
+            if not epkg:
+                self.problems.append("generation failed for %s [%s]: %s" % (ek, eopt, etxt[-600:]))
+                return None
         pkgdir, txt = generate(self.tl2gen, self.mod, k, schemas, opts)
         if not pkgdir:
             self.problems.append("generation failed for %s [%s]: %s" % (key, optname, txt[-600:]))
@@ -102,7 +107,7 @@ class GenCheck(Check):
             return None
         self.programs += 1
         self.schemas_run.append({"schema": [os.path.relpath(s, "/") for s in schemas], "options": opts})
-        gen = {"schemas": list(schemas), "opts": opts, "props": props, "only": only, "skip": skip, "hgen_extra": list(hgen_extra), "key": k,
+        gen = {"schemas": list(schemas), "opts": opts, "props": props, "only": only, "skip": skip, "hgen_extra": list(hgen_extra), "key": k, "extra_gen": [[ek, list(es), OPTSETS[eo]] for (ek, es, eo) in extra_gen],
                "libs": [os.path.basename(l) for l in (libs or [LIB])]}
         label = "%s[%s]" % (key, optname)
         rep = self.run_pkg(self.mod, "./%s/gen/internal" % k, pkgdir, "internal", libs or [LIB], regex, params=params, label=label, gen=gen, soft_trunc=True, **kw)
@@ -136,6 +141,11 @@ def replay_gen(d):
     try:
         tl2gen, mod = setup_module(scr)
         schemas = [os.path.join(d, "schemas", s) for s in meta["schema_files"]]
+        for (ek, es, eopts) in meta.get("extra_gen") or []:
+            epkg, etxt = generate(tl2gen, mod, ek, [os.path.join(d, "schemas", os.path.basename(x)) for x in es], eopts)
+            if not epkg:
+                print("companion generation failed:", etxt[-800:])
+                return 2
         pkgdir, txt = generate(tl2gen, mod, meta["key"], schemas, meta["opts"])
         if not pkgdir:
             print("generation failed:", txt[-800:])
